@@ -117,6 +117,23 @@ fn main() {
         "run" => cmd_run(&args),
         "check" => cmd_check(&args),
         "replay" => cmd_replay(&args),
+        "selftest" => {
+            let seed = seed_from_env();
+            let r1 = driver::selftest::<world_c15::C15>(seed, 5_000);
+            let r2 = driver::selftest::<world_c19::C19>(seed, 5_000);
+            match (r1, r2) {
+                (Ok(a), Ok(b)) => {
+                    println!("selftest: {} + {} histories survive a JSON round trip with identical digests", a, b);
+                    0
+                }
+                (a, b) => {
+                    for e in [a.err(), b.err()].into_iter().flatten() {
+                        eprintln!("HARNESS-ERROR: selftest: {}", e);
+                    }
+                    2
+                }
+            }
+        }
         "probes" => {
             let names = match args.get("prop") {
                 Some("C15") => world_c15::C15::probe_names(),
@@ -436,7 +453,7 @@ fn cmd_check(args: &Args) -> i32 {
         .with("faults_injected", J::obj())
         .with("fault_census", fault_census)
         .with("allocations_inside_crate_calls", J::obj().with("crate_calls", J::u(alloc_calls)).with("allocations", J::u(allocs)).with("note", J::str("counting global allocator enabled only around calls into ckc-rs; informational, never a violation")))
-        .with("distinct_states", J::obj().with("abstract_step_cells_reached", J::u(g(p, "cells_reached"))).with("abstract_step_cells_possible_upper_bound", J::u(g(p, "cells_possible"))).with("cell_rule", J::str(cell_rule)).with("distinct_final_world_shapes", J::u(g(p, "distinct_world_shapes"))).with("distinct_register_values", J::u(g(p, "distinct_values"))).with("distinct_register_values_counted_over_first_runs", J::u(g(p, "values_sampled_runs"))))
+        .with("distinct_states", J::obj().with("abstract_step_cells_reached", J::u(g(p, "cells_reached"))).with("abstract_step_cells_possible", J::u(g(p, "cells_possible"))).with("abstract_step_cells_possible_is_exact_not_upper_bound", p.get("cells_possible_is_exact").cloned().unwrap_or(J::Null)).with("cell_rule", J::str(cell_rule)).with("distinct_final_world_shapes", J::u(g(p, "distinct_world_shapes"))).with(if prop == "C15" { "distinct_set_values_held_by_a_register" } else { "distinct_set_values_not_applicable" }, if prop == "C15" { J::u(g(p, "distinct_values")) } else { J::Null }).with("distinct_set_values_counted_over_first_runs", if prop == "C15" { J::u(g(p, "values_sampled_runs")) } else { J::Null }))
         .with("op_bigrams_seen", J::u(g(p, "op_bigrams_seen")))
         .with("op_bigrams_possible", J::u(g(p, "op_bigrams_possible")))
         .with("ops_by_kind_after_first", p.get("ops_by_kind_after_first").cloned().unwrap_or(J::Null))
